@@ -158,3 +158,13 @@ for arch, fl, fn in [("ppc", "ppc.rs", "ppc_code"), ("sparc", "sparc.rs", "sparc
     U(id="C11.loop." + arch, props=["C11", "C06", "C07"], backend="verus", verus="bcj_%s.json" % arch, harnesses=[], stubs=[],
       functions=[("src/filter/bcj/" + fl, fn)],
       contract="for EVERY buffer length: no index/overflow error, terminates, returns the converted prefix r (multiple of the stride, r+4 > len, 0 if len<4), pos += r, bytes >= r untouched, is_encoder/prev_mask unchanged")
+
+U(id="C11.delta", props=["C11", "C07", "C06", "C19"], file="filter/delta.rs", stubs=[],
+  harnesses=["c11_delta_step_inverse", "c11_delta_reference", "c07_delta_split", "c11_delta_new"],
+  functions=[("src/filter/delta.rs", "encode", "Delta"), ("src/filter/delta.rs", "decode", "Delta"), ("src/filter/delta.rs", "new", "Delta")],
+  contract="coupling invariant (inductive): equal states stay equal and decode(encode(x))=x for every state/distance; out[k]=in[k]-in[k-d] (reference definition, zero history at start); call-splitting homomorphism; reader/writer constructors agree")
+U(id="C05.delta.io", props=["C05", "C07"], file="filter/delta.rs",
+  harnesses=["c05_delta_reader", "c05_delta_writer_short", "c05_delta_writer_error"],
+  stubs=ERR + ["io_any source/sink: short reads/writes, Interrupted, error at a chosen call"],
+  functions=[("src/filter/delta.rs", "read", "Read for DeltaReader"), ("src/filter/delta.rs", "write", "Write for DeltaWriter")],
+  contract="reader: returns the source's count, decodes exactly those bytes, source error passes through with state untouched, zero-length read is a no-op; writer: Ok(n) commits exactly the first n bytes (sink content and filter state), sink error is returned")
